@@ -258,6 +258,13 @@ def bt_stream(ctx, name, lines):
     ctx.count(name + ".coverage", "unsupported", len(lines) - len(keep))
     ctx.count(name + ".coverage", "covered", len(keep))
     ctx.correspond(name, EXE, keep)
+    # what fraction of the generated programs lies inside the set the loop-level theorem
+    # `btclib_eval_refines_core_partial` speaks about (`Sim.covered`, decided by the driver)
+    cov = ctx.model(EXE, ["btcovered " + ln.split(" ")[3] for ln in lines]) or []
+    n_in = sum(1 for o in cov if o == "ok True")
+    ctx.count(name + ".theorem-scope", "inside", n_in)
+    ctx.count(name + ".theorem-scope", "outside", len(cov) - n_in)
+    ctx.note(f"{name}: {n_in}/{len(cov)} generated programs satisfy Sim.covered (scope of btclib_eval_refines_core_partial)")
 
 
 def tx_vectors(ctx):
